@@ -95,6 +95,10 @@ var c16Templates = []string{
 	"on: push\njobs:\n  a:\n    runs-on: [§, §, ubuntu-latest, windows-latest]\n    steps:\n      - run: echo\n",
 	"on: push\njobs:\n  a:\n    runs-on: ubuntu-latest\n    outputs:\n      §: a\n      §: b\n    steps:\n      - run: echo\n",
 	"on: push\njobs:\n  a:\n    runs-on: ubuntu-latest\n    services:\n      §:\n        image: x\n      §:\n        image: y\n    steps:\n      - run: echo ${{ job.services.nosuch }}\n",
+	// job ids echoed by the needs rule: cycle through §, self-cycle, dangling and existing references
+	"on: push\njobs:\n  §:\n    needs: [b]\n    runs-on: ubuntu-latest\n    steps:\n      - run: echo\n  b:\n    needs: [§]\n    runs-on: ubuntu-latest\n    steps:\n      - run: echo\n",
+	"on: push\njobs:\n  §:\n    needs: §\n    runs-on: ubuntu-latest\n    steps:\n      - run: echo\n",
+	"on: push\njobs:\n  a:\n    needs: [§, b]\n    runs-on: ubuntu-latest\n    steps:\n      - run: echo ${{ needs.b.outputs.x }} ${{ needs.nosuch }}\n  b:\n    needs: [c]\n    runs-on: ubuntu-latest\n    steps:\n      - run: echo\n  c:\n    needs: [b, §]\n    runs-on: ubuntu-latest\n    steps:\n      - run: echo\n",
 	// declared sets
 	"on:\n  workflow_dispatch:\n    inputs:\n      x:\n        type: choice\n        options: [§, §]\n        default: zz\njobs:\n  a:\n    runs-on: ubuntu-latest\n    steps:\n      - run: echo\n",
 	"on:\n  workflow_dispatch:\n    inputs:\n      x:\n        type: choice\n        options: [p]\n        default: §\njobs:\n  a:\n    runs-on: ubuntu-latest\n    steps:\n      - run: echo\n",
